@@ -23,7 +23,7 @@ static int cb(gd_parser_data_t *p, void *x) { (void)p; (*(int*)x)++; return GD_S
 
 static int do_check(const char *dir)
 {
-  int n = 0, prob = 0, ent = 0, i, j;
+  int n = 0, prob = 0, ent = 0, dang = 0, i, j;
   DIRFILE *D = gd_cbopen(dir, GD_RDONLY, cb, &n);
   int e = gd_error(D);
   const char **fl, **ml;
@@ -37,11 +37,11 @@ static int do_check(const char *dir)
     ml = gd_entry_list(D, fl[i], 0, GD_ENTRIES_HIDDEN | GD_ENTRIES_NOALIAS);
     for (j = 0; ml[j]; j++) { snprintf(code, sizeof code, "%s/%s", fl[i], ml[j]); if (gd_validate(D, code)) prob++; ent++; }
     ml = gd_entry_list(D, fl[i], GD_ALIAS_ENTRIES, GD_ENTRIES_HIDDEN);
-    for (j = 0; ml[j]; j++) { snprintf(code, sizeof code, "%s/%s", fl[i], ml[j]); if (gd_entry_type(D, code) == GD_NO_ENTRY) prob++; ent++; }
+    for (j = 0; ml[j]; j++) { snprintf(code, sizeof code, "%s/%s", fl[i], ml[j]); if (gd_entry_type(D, code) == GD_NO_ENTRY) { prob++; dang++; } ent++; }
   }
   fl = gd_entry_list(D, NULL, GD_ALIAS_ENTRIES, GD_ENTRIES_HIDDEN);
-  for (i = 0; fl[i]; i++) { if (gd_entry_type(D, fl[i]) == GD_NO_ENTRY) prob++; ent++; }
-  printf("problems %d\nentries %d\n", prob, ent);
+  for (i = 0; fl[i]; i++) { if (gd_entry_type(D, fl[i]) == GD_NO_ENTRY) { prob++; dang++; } ent++; }
+  printf("problems %d\nentries %d\ndangling %d\n", prob, ent, dang);
   { off_t nf = gd_nframes(D); if (gd_error(D)) printf("nframes err\n"); else printf("nframes %" PRIu64 "\n", (uint64_t)nf); }
   gd_close(D);
   return 0;
